@@ -99,8 +99,15 @@ def check_case(case):
     def key(sym):
         return "C09|%s|%s|%s|%s" % (form, kind, mode, sym)
 
-    crop = xyz.Crop(fn=f, name="k", parent_dir=d, **{mode: req})
-    crop.sow_combos(combos, shuffle=case["shuffle"], verbosity=0)
+    if case["shuffle"] and core.pick([N, mode, req, sub, "ctor"], 3) == 0:
+        # (a shuffle given to the constructor only; the sow call leaves its
+        # own option at the default)
+        crop = xyz.Crop(fn=f, name="k", parent_dir=d, shuffle=True,
+                        **{mode: req})
+        crop.sow_combos(combos, verbosity=0)
+    else:
+        crop = xyz.Crop(fn=f, name="k", parent_dir=d, **{mode: req})
+        crop.sow_combos(combos, shuffle=case["shuffle"], verbosity=0)
     B = crop.num_batches
     have = set()
     if case.get("live"):
